@@ -219,23 +219,23 @@ set_option maxRecDepth 40000 in
 example : Inv (mn_stateOf mn_ops1) ∧ mn_branchIs (mn_stateOf mn_ops1).st.h 100 "tsmall-split" = true ∧
     mn_branchIs (mn_stateOf mn_ops1).st.h 500 "tlarge-split" = true ∧
     mn_branchIs (mn_stateOf mn_ops1).st.h 990 "tlarge-exhaust" = true :=
-  ⟨gl_inv_of_check (by decide) (by decide) (by decide) (by decide) (by decide), by decide, by decide, by decide⟩
+  ⟨gl_inv_of_check (by decide) (by decide) (by decide) (by decide) (by decide) (by decide), by decide, by decide, by decide⟩
 
 set_option maxRecDepth 40000 in
 example : Inv (mn_stateOf mn_ops2) ∧ mn_branchIs (mn_stateOf mn_ops2).st.h 232 "tsmall-exhaust" = true :=
-  ⟨gl_inv_of_check (by decide) (by decide) (by decide) (by decide) (by decide), by decide⟩
+  ⟨gl_inv_of_check (by decide) (by decide) (by decide) (by decide) (by decide) (by decide), by decide⟩
 
 set_option maxRecDepth 40000 in
 example : Inv (mn_stateOf mn_ops3) ∧ (mn_stateOf mn_ops3).st.segs.length = 2 ∧
     mn_branchIs (mn_stateOf mn_ops3).st.h 8 "small-next-split" = true ∧
     mn_branchIs (mn_stateOf mn_ops3).st.h 85 "small-next-exhaust" = true :=
-  ⟨gl_inv_of_check (by decide) (by decide) (by decide) (by decide) (by decide), by decide, by decide, by decide⟩
+  ⟨gl_inv_of_check (by decide) (by decide) (by decide) (by decide) (by decide) (by decide), by decide, by decide, by decide⟩
 
 set_option maxRecDepth 40000 in
 example : Inv (mn_stateOf mn_ops4) ∧ (mn_stateOf mn_ops4).st.segs.length = 2 ∧
     mn_branchIs (mn_stateOf mn_ops4).st.h 100 "tsmall-split" = true ∧
     mn_branchIs (mn_stateOf mn_ops4).st.h 500 "tlarge-split" = true ∧
     mn_branchIs (mn_stateOf mn_ops4).st.h 65320 "tlarge-exhaust" = true :=
-  ⟨gl_inv_of_check (by decide) (by decide) (by decide) (by decide) (by decide), by decide, by decide, by decide, by decide⟩
+  ⟨gl_inv_of_check (by decide) (by decide) (by decide) (by decide) (by decide) (by decide), by decide, by decide, by decide, by decide⟩
 
 end TinyVerif.Dl
